@@ -10,6 +10,7 @@ import (
 	"math/rand"
 	"os"
 	"path/filepath"
+	"regexp"
 	"sort"
 	"strings"
 )
@@ -38,6 +39,7 @@ type Group struct {
 	Type    string   // Coq type of a case
 	Checker string   // Coq function : list <Type> -> list (Z*Z)  (idx-in-group, code) ; code bit0=disagree bit1=spec-fail
 	Cases   []*Case
+	Shard   int // cases per generated file (0 = default); smaller shards for large case terms
 }
 
 type Ctx struct {
@@ -51,6 +53,59 @@ type Ctx struct {
 	Hist   map[string]int
 	N      int
 	Extra  map[string]any
+	// interned subterms (see Intern)
+	internByTerm map[string]string
+	internDefs   []internDef
+}
+
+type internDef struct{ name, typ, term string }
+
+var internName = regexp.MustCompile(`\bn_[0-9]+\b`)
+
+// Intern gives a (large, repeated) Gallina subterm a name; every shard that
+// mentions the name gets the definition in its prelude, so Coq elaborates the
+// subterm once instead of once per occurrence. Returns the name to write in
+// place of the term.
+func (c *Ctx) Intern(typ, term string) string {
+	if c.internByTerm == nil {
+		c.internByTerm = map[string]string{}
+	}
+	if n, ok := c.internByTerm[term]; ok {
+		return n
+	}
+	n := fmt.Sprintf("n_%d", len(c.internDefs))
+	c.internByTerm[term] = n
+	c.internDefs = append(c.internDefs, internDef{n, typ, term})
+	return n
+}
+
+// internPrelude returns the definitions (in creation order, which is dependency
+// order) needed by the given terms.
+func (c *Ctx) internPrelude(terms []string) []string {
+	need := map[string]bool{}
+	var visit func(t string)
+	idx := map[string]int{}
+	for i, d := range c.internDefs {
+		idx[d.name] = i
+	}
+	visit = func(t string) {
+		for _, m := range internName.FindAllString(t, -1) {
+			if i, ok := idx[m]; ok && !need[m] {
+				need[m] = true
+				visit(c.internDefs[i].term)
+			}
+		}
+	}
+	for _, t := range terms {
+		visit(t)
+	}
+	var out []string
+	for _, d := range c.internDefs {
+		if need[d.name] {
+			out = append(out, "Definition "+d.name+" : "+d.typ+" := "+d.term+".")
+		}
+	}
+	return out
 }
 
 func (c *Ctx) Thorough() bool { return c.Tier == "thorough" }
@@ -108,6 +163,38 @@ func Main() {
 	}
 }
 
+var strLit = regexp.MustCompile(`"[^"]*"`)
+
+// internStrings names every string literal that occurs more than once in a
+// shard (Coq elaborates a literal into one constructor per bit, which dominates
+// the time to check large case terms); the bytes of every literal are unchanged.
+func internStrings(terms []string) (string, []string) {
+	count := map[string]int{}
+	for _, t := range terms {
+		for _, m := range strLit.FindAllString(t, -1) {
+			count[m]++
+		}
+	}
+	names := map[string]string{}
+	var defs strings.Builder
+	out := make([]string, len(terms))
+	for i, t := range terms {
+		out[i] = strLit.ReplaceAllStringFunc(t, func(m string) string {
+			if count[m] < 2 || len(m) < 4 {
+				return m
+			}
+			n, ok := names[m]
+			if !ok {
+				n = fmt.Sprintf("s_%d", len(names))
+				names[m] = n
+				defs.WriteString("Definition " + n + " : string := " + m + ".\n")
+			}
+			return n
+		})
+	}
+	return defs.String(), out
+}
+
 func (c *Ctx) write() error {
 	if err := os.MkdirAll(c.Out, 0o755); err != nil {
 		return err
@@ -128,6 +215,10 @@ func (c *Ctx) write() error {
 	nontrivial := 0
 	for _, name := range c.Order {
 		g := c.Groups[name]
+		shardSize := shardSize
+		if g.Shard > 0 {
+			shardSize = g.Shard
+		}
 		for i := 0; i < len(g.Cases); i += shardSize {
 			j := i + shardSize
 			if j > len(g.Cases) {
@@ -137,14 +228,26 @@ func (c *Ctx) write() error {
 			var sb strings.Builder
 			sb.WriteString("(* generated by vh; do not edit *)\n")
 			sb.WriteString("From Saml Require Import Base " + strings.Join(g.Imports, " ") + ".\n")
-			sb.WriteString("Definition cases : list (" + g.Type + ") := [\n")
 			idxs := []int{}
-			for k, cs := range g.Cases[i:j] {
+			terms := make([]string, 0, j-i)
+			for _, cs := range g.Cases[i:j] {
+				terms = append(terms, cs.Term)
+				idxs = append(idxs, cs.Idx)
+			}
+			prelude := c.internPrelude(terms)
+			all := append(append([]string{}, prelude...), terms...)
+			defs, all := internStrings(all)
+			sb.WriteString(defs)
+			for _, d := range all[:len(prelude)] {
+				sb.WriteString(d + "\n")
+			}
+			terms = all[len(prelude):]
+			sb.WriteString("Definition cases : list (" + g.Type + ") := [\n")
+			for k, t := range terms {
 				if k > 0 {
 					sb.WriteString(";\n")
 				}
-				sb.WriteString("  " + cs.Term)
-				idxs = append(idxs, cs.Idx)
+				sb.WriteString("  " + t)
 			}
 			sb.WriteString("\n].\n")
 			sb.WriteString("Definition R := Eval vm_compute in (" + g.Checker + " cases).\nPrint R.\n")
